@@ -291,20 +291,32 @@ impl Iterator for Tokenizer<'_> {
                     use self::Text::*;
                     match lex.next() {
                         Some(Ok(Text)) => result += lex.slice(),
-                        Some(Ok(EscapeCharacter)) => match lex.slice().chars().nth(1).unwrap() {
-                            'n' => result.push('\n'),
-                            'r' => result.push('\r'),
-                            't' => result.push('\t'),
-                            '\\' => result.push('\\'),
-                            '"' => result.push('"'),
-                            '\'' => result.push('\''),
-                            c => {
-                                return Some(Err(LexicalError::new(
-                                    format!("Unknown escape character {c}"),
-                                    lex.span(),
-                                )))
+                        Some(Ok(EscapeCharacter)) => {
+                            // The match can end inside a multi-byte character, so the escaped
+                            // character is taken from the source, not from the slice.
+                            let start = lex.span().start;
+                            let escaped = lex.source()[start + 1..].chars().next();
+                            match escaped {
+                                Some('n') => result.push('\n'),
+                                Some('r') => result.push('\r'),
+                                Some('t') => result.push('\t'),
+                                Some('\\') => result.push('\\'),
+                                Some('"') => result.push('"'),
+                                Some('\'') => result.push('\''),
+                                Some(c) => {
+                                    return Some(Err(LexicalError::new(
+                                        format!("Unknown escape character {c}"),
+                                        start..start + 1 + c.len_utf8(),
+                                    )))
+                                }
+                                None => {
+                                    return Some(Err(LexicalError::new(
+                                        "Unclosed string",
+                                        span.start..lex.span().end,
+                                    )))
+                                }
                             }
-                        },
+                        }
                         Some(Ok(Codepoint)) => {
                             let slice = lex.slice();
                             let hex = slice[3..slice.len() - 1].replace('_', "");
